@@ -412,6 +412,18 @@ class Tr:
         w = self.spec["thread"]
         if call.keywords and ent.get("args", True):
             raise Unsupported(f"keyword arguments of {ast.unparse(call.func)}")
+        pre = ""
+        if ent.get("pop0") and len(call.args) == 1 and isinstance(call.args[0], ast.Call) and isinstance(call.args[0].func, ast.Attribute) \
+                and call.args[0].func.attr == "pop" and [ast.unparse(a) for a in call.args[0].args] == ["0"] \
+                and (self.dotted(call.args[0].func.value) or "").startswith("self.") and self.state:
+            # `op(self.L.pop(0))`: the first element is taken off the list, then handed over (the list is non-empty here: the loop test)
+            lst = call.args[0].func.value
+            self._npop = getattr(self, "_npop", 0) + 1
+            v = f"piece_{self._npop}"
+            fld = self.field(self.dotted(lst))
+            pre = (f"{ind}let {v} := ({self.e(lst)}).headD []\n{ind}let {self.state} := {{ {self.state} with {fld} := ({self.e(lst)}).tail }}\n")
+            self.types[v] = "str"
+            call = ast.Call(func=call.func, args=[ast.Name(id=v, ctx=ast.Load())], keywords=[])
         if ent.get("error_arg"):
             if len(call.args) != 1:
                 raise Unsupported(f"arguments of {ast.unparse(call.func)}")
@@ -433,6 +445,8 @@ class Tr:
                 self.types[x.id] = t
         else:
             raise Unsupported(f"target of {ast.unparse(call.func)}")
+        if pre:
+            return pre + self.world_stmt({k: v for k, v in ent.items() if k != "pop0"}, call, tgt, rest, ind)
         if ent.get("raises"):
             return (f"{ind}match {ent['fn']} {w}{args} with\n{ind}| ({w}, .error e) => ({w}, .error e)\n{ind}| ({w}, .ok {pat}) =>\n"
                     + self.block(rest, ind + "  "))
@@ -490,10 +504,26 @@ class Tr:
 
     def block(self, stmts, ind: str) -> str:
         if not stmts:
+            if getattr(self, "_loop", None):
+                return f"{ind}{self._loop} fuel {self.state}"          # end of the loop body: next iteration
             if self.spec.get("implicit_return"):
                 return ind + self.ret(None)
             raise Unsupported("control falls off the end")
         s, rest = stmts[0], stmts[1:]
+        if (isinstance(s, ast.Assign) and len(s.targets) == 1 and isinstance(s.targets[0], ast.Name) and isinstance(s.value, ast.Call)
+                and isinstance(s.value.func, ast.Attribute) and s.value.func.attr == "_replace" and not s.value.args and self.spec.get("replace_ctor")
+                and isinstance(s.value.func.value, ast.Call)):
+            # `x = f(...)._replace(a=…, b=…)` on a named tuple: `x = f(...)` then the constructor call with the other fields copied from x
+            cname = self.spec["replace_ctor"]
+            _, fields, fixed = self.spec["ctors"][cname][:3]
+            x = s.targets[0].id
+            given = {k.arg: k.value for k in s.value.keywords}
+            if None in given or not set(given) <= set(fields) | set(fixed):
+                raise Unsupported(f"_replace fields {sorted(k for k in given if k)}")
+            kws = [ast.keyword(arg=f, value=given.get(f, ast.Attribute(value=ast.Name(id=x, ctx=ast.Load()), attr=f, ctx=ast.Load()))) for f in list(fixed) + list(fields)]
+            first = ast.Assign(targets=[ast.Name(id=x, ctx=ast.Store())], value=s.value.func.value, lineno=0)
+            second = ast.Assign(targets=[ast.Name(id=x, ctx=ast.Store())], value=ast.Call(func=ast.Name(id=cname, ctx=ast.Load()), args=[], keywords=kws), lineno=0)
+            return self.block([first, second] + list(rest), ind)
         hoisted = self._hoist_test_call(s)
         if hoisted is not None:
             return self.block(hoisted + list(rest), ind)
@@ -699,6 +729,26 @@ class Tr:
                     outs.append((d, a))
                 return f"{ind}if {self.cond(s.test)} then\n{self.block(body, ind + '  ')}\n{ind}else\n{self.block(orelse, ind + '  ')}"
             return f"{ind}if {self.cond(s.test)} then\n{self.block(body, ind + '  ')}\n{ind}else\n{self.block(orelse, ind + '  ')}"
+        if getattr(self, "_loop", None) and isinstance(s, ast.Continue):
+            return f"{ind}{self._loop} fuel {self.state}"
+        if getattr(self, "_loop", None) and isinstance(s, ast.Break):
+            return f"{ind}{self.state}"
+        if getattr(self, "_loop", None) and isinstance(s, (ast.Return, ast.Raise)):
+            raise Unsupported("return / raise inside a while loop")
+        if isinstance(s, ast.While) and not s.orelse and self.state and self.spec.get("loops"):
+            # `while C: body` on the threaded state: a recursive definition on fuel (the spec names a bound that the proofs show sufficient)
+            self._nloop = getattr(self, "_nloop", 0) + 1
+            decl, args, fuel = self.spec["loops"]
+            name = f"{self.spec['name']}_loop{self._nloop}"
+            sub = Tr(self.spec)
+            sub.scope, sub.types, sub.rename, sub.opaque = self.scope, dict(self.types), dict(self.rename), dict(self.opaque)
+            sub._loop = name + (" " + args if args else "")
+            cond = sub.cond(s.test)
+            body = sub.block(list(s.body), "      ")
+            st = self.state
+            self.helpers[name] = (f"/-- the `while` loop of `{self.spec['func']}` (recursion on fuel) -/\ndef {name} {decl}: Nat → {self.spec['state_type']} → {self.spec['state_type']}\n"
+                                  f"  | 0, {st} => {st}\n  | fuel + 1, {st} =>\n    if {cond} then\n{body}\n    else\n      {st}\n")
+            return f"{ind}let {st} := {name}{(' ' + args) if args else ''} ({fuel}) {st}\n" + self.block(rest, ind)
         if isinstance(s, ast.For) and not s.orelse and isinstance(s.target, ast.Name):
             v = s.target.id
             b = s.body
@@ -1169,7 +1219,7 @@ SPECS = [
          ctors={"ParsedURL": ("Url.Parsed", {"hostname": "host", "port": "port", "path": "path", "query": "query", "normalized": "normalized"},
                               {"scheme": "'titan'", "fragment": "parsed.fragment"}),
                 "cls": ("TitanReq", {"raw_url": "raw", "parsed_url": "parsed", "size": "size", "mime_type": "mime", "token": "token"}, {})},
-         attrs={"hostname": "host"},
+         attrs={"hostname": "host"}, replace_ctor="ParsedURL",
          errors={"Titan URL must start with": ".notTitan", "Titan URL must contain parameters": ".noParams", "Titan URL must contain size": ".noSize",
                  "Invalid size parameter": ".badSize", "Size must be non-negative": ".negSize"},
          types={"line": "str", "url_part": "str", "params_str": "str", "params": "dict", "_parse_titan_params(params_str)": "dict", "size": "num", "gemini_url": "str",
@@ -1287,6 +1337,28 @@ SPECS = [
          errors={"Response header too long": "\"headerTooLong\"", "Response body exceeds maximum size": "\"tooBig\""},
          world_ops={"self._set_error": dict(fn="Cl.setError", ret=None, error_arg=True), "self.transport.close": dict(fn="Cl.closeTransport", ret=None),
                     "self._parse_header": dict(fn="Cl.parseHeader", ret=None)}),
+    dict(name="pumpResponse", file="server/protocol.py", cls="GeminiServerProtocol", func="_pump_response", state="s", thread="s", implicit_return=True,
+         header="def pumpResponse (s : Srv.Flow.FSt) : Srv.Flow.FSt × Unit :=", state_type="Srv.Flow.FSt",
+         loops=("", "", "s.unsent.length"),
+         fields={"_unsent": "unsent", "_write_paused": "paused", "_response_sent": "started"},
+         rename={"self.transport": "(!s.lost)"},
+         types={"self._unsent": "list", "self._write_paused": "bool", "self._response_sent": "bool", "self.transport": "bool"},
+         world_ops={"self.transport.write": dict(fn="Srv.Flow.pyWrite", ret=None, pop0=True), "self.transport.close": dict(fn="Srv.Flow.pyClose", ret=None)}),
+    dict(name="resumeWriting", file="server/protocol.py", cls="GeminiServerProtocol", func="resume_writing", state="s", thread="s", implicit_return=True,
+         header="def resumeWriting (s : Srv.Flow.FSt) : Srv.Flow.FSt × Unit :=", state_type="Srv.Flow.FSt",
+         fields={"_unsent": "unsent", "_write_paused": "paused", "_response_sent": "started"},
+         types={"self._unsent": "list", "self._write_paused": "bool", "self._response_sent": "bool"},
+         world_ops={"self._pump_response": dict(fn="(fun s => (pumpResponse s).1)", ret=None)}),
+    dict(name="connectionLost", file="server/protocol.py", cls="GeminiServerProtocol", func="connection_lost", state="s", thread="s", implicit_return=True,
+         header="def connectionLost (s : Srv.Flow.FSt) : Srv.Flow.FSt × Unit :=", state_type="Srv.Flow.FSt",
+         fields={"timeout_handle": "timer"}, truthy_objs=("self.timeout_handle",),
+         types={"self.timeout_handle": "optobj"},
+         assign_map={"self.transport": ("Srv.Flow.pyLost", False)},
+         world_ops={"self.timeout_handle.cancel": dict(fn="Srv.Flow.pyCancel", ret=None)}),
+    dict(name="pauseWriting", file="server/protocol.py", cls="GeminiServerProtocol", func="pause_writing", state="s", thread="s", implicit_return=True,
+         header="def pauseWriting (s : Srv.Flow.FSt) : Srv.Flow.FSt × Unit :=", state_type="Srv.Flow.FSt",
+         fields={"_unsent": "unsent", "_write_paused": "paused", "_response_sent": "started"},
+         types={"self._write_paused": "bool"}),
     dict(name="parseUrl", file="utils/url.py", cls=None, func="parse_url", mode="except", numfmt="Url.natToStr",
          header=("def parseUrl (url scheme : Url.Str) (hostname username password : Option Url.Str) (fragment : Url.Str) (splitR : Except Url.Err Unit)\n"
                  "    (portR : Except Url.Err (Option Nat)) (path netloc query : Url.Str) : Except Url.Err Url.Parsed :="),
@@ -1336,6 +1408,8 @@ PRELUDE = {
     "uploadGate": ([], []),
     "followRedirects": (["NauyacaVerif.Cl.Redirect"], []),
     "dataReceived": (["NauyacaVerif.Srv.PState"], []),
+    "pumpResponse": (["NauyacaVerif.Srv.FlowPy"], []), "resumeWriting": (["NauyacaVerif.Srv.FlowPy", "NauyacaVerif.Gen.Fn.PumpResponse"], []),
+    "pauseWriting": (["NauyacaVerif.Srv.FlowPy"], []), "connectionLost": (["NauyacaVerif.Srv.FlowPy"], []),
     "clientDataReceived": (["NauyacaVerif.Cl.PyClient"], []), "titanClientDataReceived": (["NauyacaVerif.Cl.PyClient"], []),
     "getSingleTail": (["NauyacaVerif.Cl.TofuEnv"], []), "uploadTail": (["NauyacaVerif.Cl.TofuEnv"], []),
     "tofuVerify": (["NauyacaVerif.Misc.SqlEnv"], []), "tofuTrust": (["NauyacaVerif.Misc.SqlEnv"], []), "tofuRevoke": (["NauyacaVerif.Misc.SqlEnv"], []),
